@@ -41,7 +41,7 @@ func (c TypeCase) mainSource(body string) string {
 	return "set f to transform " + body + " end replace all at least 1 any with f"
 }
 
-var c12Texts = []string{"a", "12"}
+var c12Texts = []string{"a", "12", "\xe9", "\u00e9t", "a\xc3"}
 
 // checkTypeCase: status is "accept", "reject", "open" (documents leave the verdict
 // open: only the run-time half is asserted), or "" with a violation signature.
@@ -139,6 +139,10 @@ func validReturn(ctx Ctx) Stmt {
 	return Stmt{K: "return", E: Str("x")}
 }
 
+// bigNumbers: with it set, number literals are written with 20 digits (more than an
+// integer holds): still number literals for the typing rules.
+var bigNumbers bool
+
 func typedOperand(tp PType, asVar bool) (*Expr, []Stmt) {
 	var lit *Expr
 	switch tp {
@@ -146,6 +150,9 @@ func typedOperand(tp PType, asVar bool) (*Expr, []Stmt) {
 		lit = Str("a")
 	case TNumber:
 		lit = Num(1)
+		if bigNumbers {
+			lit = &Expr{K: "numraw", S: "99999999999999999999"}
+		}
 	default:
 		lit = Bool(true)
 	}
@@ -159,7 +166,7 @@ func typedOperand(tp PType, asVar bool) (*Expr, []Stmt) {
 func TestC12Table(t *testing.T) {
 	seedNote(t)
 	StartWatchdog("C12", 60*time.Second)
-	st := NewStats("C12", "table", "exhaustive: 13 binary operators x 3 x 3 operand types and 3 unary operators x 3 types (operands as literals and as set-bound variables), each as `return`, `if` condition, `set` source and `debug` argument, in predicate and transform context; break/continue at every position of loop/if skeletons to depth 3; verdict of Compile (GenError or not) vs the documented typing rules, accepted code run on two texts; every case non-trivial (one table cell / one nesting position), distinct by source")
+	st := NewStats("C12", "table", "exhaustive: 13 binary operators x 3 x 3 operand types and 3 unary operators x 3 types (operands as literals, as set-bound variables, and with 20-digit number literals), each as `return`, `if` condition, `set` source and `debug` argument, in predicate and transform context; break/continue at every position of loop/if skeletons to depth 3; verdict of Compile (GenError or not) vs the documented typing rules, accepted code run on two texts; every case non-trivial (one table cell / one nesting position), distinct by source")
 	st.Exhaustive = true
 	defer st.Write()
 	types := []PType{TString, TNumber, TBool}
@@ -183,7 +190,8 @@ func TestC12Table(t *testing.T) {
 		e   *Expr
 		pre []Stmt
 	}
-	for _, asVar := range []bool{false, true} {
+	for mode, asVar := range []bool{false, true, false} {
+		bigNumbers = mode == 2
 		for _, op := range binaryOps {
 			for _, lt := range types {
 				for _, rt := range types {
@@ -210,6 +218,7 @@ func TestC12Table(t *testing.T) {
 			}
 		}
 	}
+	bigNumbers = false
 	for _, ctx := range []Ctx{CtxPredicate, CtxTransform} {
 		for _, x := range exprs {
 			ret := validReturn(ctx)
